@@ -481,78 +481,3 @@ Definition rel_abs_info (lay : layout) (i : info) : info :=
 
 Definition relatives_to_absolutes (lay : layout) (l : list stmt) : list stmt :=
   reparse (map (fun s => set_info s (rel_abs_info lay (s_info s))) l).
-
-(* ------------------------------------------------------------------ handle_long_imports *)
-(* LongImportVisitor._is_long with maxdots = 2, maxlength = 27 *)
-Definition is_long (d : dotted) : bool :=
-  Nat.ltb 3 (length d) || (Nat.ltb 1 (length d) && Nat.ltb 27 (length (render_dotted d))).
-
-Definition long_names (i : info) : list dotted :=
-  match i with
-  | Normal ps => flat_map (fun p => match snd p with
-                                    | None => if is_long (fst p) then [fst p] else []
-                                    | Some _ => []
-                                    end) ps
-  | _ => []
-  end.
-
-Fixpoint strip_prefix (d u : dotted) : option dotted :=
-  match d, u with
-  | [], r => Some r
-  | x :: d', y :: u' => if text_eqb x y then strip_prefix d' u' else None
-  | _ :: _, [] => None
-  end.
-
-(* _rename_in_module(name, last component): a use of the long name a.b.c.d[.rest] becomes d[.rest] *)
-Definition rename_long (d : dotted) (u : dotted) : dotted :=
-  match strip_prefix d u with
-  | Some r => last d [] :: r
-  | None => u
-  end.
-
-Definition handle_long_imports (lay : layout) (pr : prefs) (used : list dotted) (exported : list text)
-           (l : list stmt) : option (list stmt * list dotted) :=
-  let longs := flat_map (fun s => long_names (s_info s)) l in
-  let news := map (fun d => From (removelast d) 0%N [(last d [], None)]) longs in
-  let l1 := reparse (fold_left (add_import (p_split pr)) news l) in
-  let used' := fold_left (fun us d => map (rename_long d) us) longs used in
-  match organize_gen lay pr false (names_unused used' exported) l1 with
-  | Some l2 => Some (l2, used')
-  | None => None
-  end.
-
-(* ------------------------------------------------------------------ froms_to_imports *)
-(* _from_to_normal: every use whose first name is the imported name (alias or name) becomes module.name *)
-Definition rename_from (m : dotted) (n imported : text) (u : dotted) : dotted :=
-  match u with
-  | h :: r => if text_eqb h imported then m ++ n :: r else u
-  | [] => []
-  end.
-
-(* _is_transformable_to_normal (rope 15d6126): a FromImport that is not a __future__ import; before that
-   commit "from __future__ import annotations" became "import __future__" (corpus/C07/C07-froms-future.json) *)
-Definition from_renames (i : info) : list (dotted * text * text) :=
-  match i with
-  | From m _ ps => if is_future_mod m then []
-                   else map (fun p => (m, fst p, match snd p with Some a => a | None => fst p end)) ps
-  | _ => []
-  end.
-
-Definition to_normal (i : info) : info :=
-  match i with
-  | From m _ _ => if is_future_mod m then i else Normal [(m, None)]
-  | FromStar m _ => if is_future_mod m then i else Normal [(m, None)]
-  | _ => i
-  end.
-
-Definition froms_to_imports (lay : layout) (pr : prefs) (used : list dotted) (exported : list text)
-           (l : list stmt) : option (list stmt * list dotted) :=
-  (* _clean_up_imports *)
-  let l1 := expand_stars lay used exported l in
-  let l2 := relatives_to_absolutes lay l1 in
-  opt_bind (remove_duplicates (p_split pr) l2) (fun l3 =>
-  let l4 := reparse (remove_unused lay (names_unused used exported) l3) in
-  let rens := flat_map (fun s => from_renames (s_info s)) l4 in
-  let used' := fold_left (fun us r => map (rename_from (fst (fst r)) (snd (fst r)) (snd r)) us) rens used in
-  let l5 := map (fun s => set_info s (to_normal (s_info s))) l4 in
-  opt_bind (remove_duplicates (p_split pr) l5) (fun l6 => Some (reparse l6, used'))).
